@@ -672,10 +672,14 @@ func (e *c33Env) run(cs c33Case) {
 				if last {
 					what = "is the last page of its stream and does not carry end-of-stream"
 				}
-				bad(fmt.Sprintf("eos|last=%v|%s", last, where), fmt.Sprintf("track %d: page %d (header type %#02x) %s", ti, k, pg.htype, what))
 				if !last {
+					bad(fmt.Sprintf("eos|last=%v|%s", last, where), fmt.Sprintf("track %d: page %d (header type %#02x) %s", ti, k, pg.htype, what))
+
 					return
 				}
+				// a missing EOS flag does not prevent the remaining clauses from being checked
+				c.Violation(fmt.Sprintf("eos|last=%v|%s", last, where),
+					fmt.Sprintf("track %d: page %d (header type %#02x) %s (case %s)", ti, k, pg.htype, what, cs.String()), cs)
 			}
 			if (pg.htype&1 != 0) != open {
 				bad(fmt.Sprintf("continued-flag|set=%v|%s", pg.htype&1 != 0, where),
